@@ -363,3 +363,56 @@ FRAME_NOTE = ('frame obligations decided on the AST (pyvc/frame.py): the listed 
               'unless the bounded layer supplies a failing input')
 for _p in ('C13', 'C12', 'C17', 'C11', 'C14'):
     PROPS[_p]['trusted_base'] = list(PROPS[_p].get('trusted_base', [])) + [FRAME_NOTE]
+
+
+# ---- claims after the second round of contracts (section framing on the encoder side, bitmap machinery, composite descriptors) -----------
+PROPS['C04']['claim'] = (
+    'Proved for all inputs and every section layout satisfying the facts established from the definition files (ground obligations, re-read every '
+    'run). Encoder.process_section: on return the section occupies whole octets -- an even number of them for editions up to 3 -- with ONLY zero bits '
+    'and no more than needed as padding; when lengths are recomputed the 24-bit length field, in the object and in the stream, holds the real extent '
+    '(back-patched in place, nothing before the section touched); when declared lengths are honoured a longer section is zero-filled up to exactly '
+    'the declared length and a shorter one never returns normally. Encoder.process_unexpanded_descriptors packs every id as F:2 X:6 Y:8 in list '
+    'order and refuses ids that do not fit. BufrSection.get_parameter_offset is the sum of the widths of the preceding parameters. '
+    'Decoder.process_section consumes exactly 8 * section_length bits (surplus skipped, overrun refused with PyBufrKitError), accepts no value that '
+    'differs from its expectation, enters the template data iff the section has it; Decoder.process_unexpanded_descriptors reads (declared length - '
+    'octets read) // 2 descriptors. Bit level: set_uint overwrites exactly the addressed bits, keeps the length, refuses a value that does not fit. '
+    'Bounded: whole messages (total length back-patch of Encoder.process, span reported by Decoder.process, optional section 2) on the full residue grid.')
+PROPS['C04']['note'] = ('Trusted: bitstring model L7; section layouts = definition files (ground facts each run); the template walk inside the data section through '
+                        'its interface contract (only appends to the stream). Not under contract yet: Encoder.process and Decoder.process (message level: '
+                        'total length, serialized_bytes), SectionConfigurer; bounded only.')
+PROPS['C04']['assumptions'] = ['message-level framing (Encoder.process / Decoder.process) is checked by the bounded layer only',
+                               'the values handed to Encoder.process_section have the Python type of their parameter type (input conformance, a requires)']
+PROPS['C04']['witness_map'] = {'pybufrkit.decoder.': 'C04', 'pybufrkit.bitops.': 'C04', 'pybufrkit.encoder.': 'C04', 'pybufrkit.bufr.': 'C04'}
+
+PROPS['C07']['claim'] = (
+    'Proved for all inputs: CoderState.build_bitmapped_descriptors takes as back references the LAST len(bitmap) descriptors of exact type '
+    'ElementDescriptor before the boundary (every element descriptor between the first one taken and the boundary is taken; existing back references '
+    'are reused until cancelled; a bitmap that does not match them is refused), selects exactly those whose bit is 0, in order (index maps of the '
+    'selection: the k-th selected entry is the k-th zero bit) and restarts the cursor; the bitmap definition automaton of '
+    'Coder.process_bitmap_definition (one case per state x descriptor: 236000 for reuse, 237000 recall, counting of 031031, definition by the first '
+    'other descriptor); Decoder.define_bitmap / Encoder.define_bitmap take the last n_031031 decoded values / the n_031031 values that end at the '
+    'value cursor and keep the bitmap iff it is for reuse; Coder.process_bitmapped_descriptor / process_marker_operator_descriptor link each value to '
+    'the element of the NEXT zero bit, build a fresh marker descriptor, code 225255 with width + 1 and reference -2**width; add_bitmap_link, '
+    'recall_bitmap, cancel_bitmap, cancel_all_back_references, mark_back_reference_boundary; the 222-225 / 232 / 235 / 236 / 237 operator cases; '
+    'class-33 linking. Bounded: links and attribute placement in the hierarchical view against the reference for all bit patterns up to 4 (6) bits.')
+PROPS['C07']['note'] = ('Assumed: Coder.define_bitmap as interface at its one call site (the two overrides are verified against the same postcondition text). '
+                        'Not under contract: TemplateData wiring of attributes (bounded only).')
+PROPS['C07']['assumptions'] = [a for a in PROPS['C07'].get('assumptions', []) if 'build_bitmapped' not in a] + \
+    ['templatedata.py (attributes in the hierarchical view) is bounded only']
+
+PROPS['C01']['claim'] += (' Also proved: the 203-definition and 206-skip steps of the walk (process_define_new_refval: YYY-bit sign-magnitude reference for this '
+                          'element, character elements refused; process_skipped_local_descriptor: YYY-bit unsigned field labelled S + id, register cleared), and the '
+                          'composite descriptors (sequence, fixed and delayed replication: factor element coded first and kept as data, UnknownDescriptor for a '
+                          'factor that is no element descriptor) against the SUMMARY contract of Coder.process_members.')
+PROPS['C01']['note'] = ('Assumed (not yet discharged): the summary contract of Coder.process_members -- a walk only appends descriptors, primitive calls, stream bits '
+                        'and links of new positions and keeps the coder state well formed -- and its step contract (dispatch order 221 / 203 / 206 / bitmap '
+                        'definition / class dispatch): ~3000 obligations, 70 still open. Whole-message composition is covered by the bounded layer.')
+PROPS['C01']['assumptions'] = [a for a in PROPS['C01'].get('assumptions', []) if 'not under contract yet' not in a] + \
+    ['Coder.process_members: summary assumed at the calls from the composite descriptors; its body is bounded only']
+PROPS['C02']['assumptions'] = [a for a in PROPS['C02'].get('assumptions', []) if 'not under contract yet' not in a] + \
+    ['Encoder.process_string_compressed, Encoder.process and Coder.process_members are bounded only']
+PROPS['C02']['note'] = ('Under contract: every encoder primitive except process_string_compressed (numeric / code-flag / string / constant / new reference value, '
+                        'uncompressed and compressed), nbits_for_uint, minmax, the column status helper, descriptor packing F:2 X:6 Y:8, section padding and length '
+                        'back-patch (C04). Assumed: the interface contracts of the abstract primitives inside Coder and the summary of process_members.')
+PROPS['C10']['claim'] += (' Re-compression of the reduced columns: the compressed numeric / code-flag / new-reference-value writers are under contract (C02, C05); a '
+                          'negative 203YYY reference value is written sign-magnitude in compressed data as well.')
